@@ -365,4 +365,40 @@ pub(crate) mod verif_merkle {
     c04_reset!(c04_reset_after_3_google, 3, Version::Google, 12);
     //@ harness c04_reset_after_2_ietf tier=quick shape="IETF, batch of 2, then reset: all levels empty"
     c04_reset!(c04_reset_after_2_ietf, 2, Version::RfcDraft13, 12);
+
+    /// A path extended by EXTRA (< hash width) arbitrary bytes must not be accepted as a proof:
+    /// the verifier either refuses it (its length assertion: a panic, which this family treats as
+    /// the rejection) or recomputes a different root.
+    pub fn partial_body<const N: usize, const LL: usize, const EXTRA: usize>(version: Version, idx: usize) {
+        ring::digest::model_reset(true);
+        let leaves: [[u8; LL]; N] = [[0u8; LL]; N].map(|_| vany_bytes::<LL>());
+        let extra: [u8; EXTRA] = vany_bytes::<EXTRA>();
+        let (tree, root) = build::<N, LL>(version, &leaves);
+        let mut p2 = tree.get_paths(idx);
+        p2.extend_from_slice(&extra);
+        let r = tree.root_from_paths(idx, &leaves[idx], &p2);
+        vcover!(true, "COVER:verifier-returned");
+        vassert!(!same(&r, &root), "VERIF:C04:path-with-stray-trailing-bytes-does-not-recompute-root");
+        core::mem::forget(r);
+        core::mem::forget(p2);
+        core::mem::forget(root);
+        core::mem::forget(tree);
+    }
+    macro_rules! c04_partial {
+        ($name:ident, $n:expr, $extra:expr, $ver:expr, $idx:expr) => {
+            #[cfg_attr(kani, kani::proof)]
+            #[cfg_attr(kani, kani::unwind(12))]
+            #[cfg_attr(not(kani), test)]
+            fn $name() {
+                partial_body::<$n, 4, $extra>($ver, $idx);
+            }
+        };
+    }
+    //@ family c04_partial props=C04 mode=panics-ok mod=merkle::verif_merkle
+    //@ harness c04_partial_google_n1_plus1 tier=quick shape="classic, 1 leaf, empty path extended by 1 arbitrary byte"
+    c04_partial!(c04_partial_google_n1_plus1, 1, 1, Version::Google, 0);
+    //@ harness c04_partial_ietf_n2_plus16 tier=quick shape="IETF, 2 leaves, path extended by 16 arbitrary bytes (half a hash value)"
+    c04_partial!(c04_partial_ietf_n2_plus16, 2, 16, Version::RfcDraft13, 1);
+    //@ harness c04_partial_google_n2_plus63 tier=quick shape="classic, 2 leaves, path extended by 63 arbitrary bytes"
+    c04_partial!(c04_partial_google_n2_plus63, 2, 63, Version::Google, 0);
 }
